@@ -136,3 +136,33 @@ package redisemu
 //@ ensures internal [C07] special: valid != 0 ==> output.data == respInt(valid)
 //@ ensures internal [C07] remaining: valid == 0 ==> output.data == respInt(expiration / 1000000 - now / 1000000)
 //@ ensures [C07,C06] readonly: !mutated
+
+// C02: SET / SETNX / GETSET / APPEND share setWorker. SETNX replies 1 exactly
+// when it stored the value; plain SET (no GET) replies OK exactly when it did
+// and nil when NX / XX held it back.
+//@ func setWorker
+//@ prop C02
+//@ safetyprop C13
+//@ requires dsc != nil && dscOK(dsc)
+//@ requires [C08,C16] unlocked: lockMode(dsc)
+//@ requires !mutated && !bumped && !removedKey
+//@ modifies *
+//@ ensures internal [C02] setnx.reply: valid && cmdName == "setnx" && valueExists != VALUE_WRONG_TYPE && !flagHasOne(options, bitflags(SET_GET)) ==> output.data == respInt(ite(mutated, 1, 0))
+//@ ensures internal [C02] set.reply: valid && cmdName != "setnx" && !get && !append && valueExists != VALUE_WRONG_TYPE && !flagHasOne(options, bitflags(SET_GET)) ==> ((output.data == rstrOK) == mutated) && (!mutated ==> output.data == nil)
+//@ ensures internal [C02] wrongtype: valid && valueExists == VALUE_WRONG_TYPE ==> output.data == wrongTypeError && hasError && !mutated
+//@ ensures internal [C02] bad.expiry: !valid ==> istype(output.data, respErrorString) && !mutated
+
+// C02: INCR / DECR / INCRBY / DECRBY reply the new value, or an error that leaves the key alone
+//@ func keyAdd
+//@ prop C02
+//@ include thinhandler
+//@ requires !gParsedOK
+//@ ensures internal [C02] value: valid == VALUE_EXISTS ==> output.data == respInt(result)
+//@ ensures internal [C02] wrongtype: valid == VALUE_WRONG_TYPE ==> output.data == wrongTypeError && !mutated
+//@ ensures internal [C02] refused: (valid == VALUE_OVERFLOW || valid == VALUE_WRONG_FORMAT) ==> istype(output.data, respErrorString) && !mutated
+
+//@ func fnDecrBy
+//@ prop C02
+//@ include thinhandler
+//@ requires !gParsedOK
+//@ ensures [C02] min.refused: old(istype(args["decrement"], int64) && unbox(args["decrement"], int64) == -9223372036854775808) ==> istype(output.data, respErrorString) && !mutated
